@@ -18,7 +18,7 @@ INFO = {
                    "flush_every_ms, mode, use_compression), the mode strings map to the same-named variants, and Default sets all six; the guard that refuses an existing location for a temporary (delete-on-drop) database tests the effective value handed to the builder, not the raw option. "
                    "R16-4 PmTree::new = load(config), and new(depth, same config) only when load reported DatabaseError(CannotLoadDatabase) - every other "
                    "load failure is returned; SledDB::load returns Ok only for a recovered location and that error value only for an unrecovered one; "
-                   "no open failure is that value; load and new open through the same retrying routine. R16-5 a method that replaces the instance's tree builds the new one from the instance's storage configuration (not ZerokitMerkleTree::default). R16-6 (shared, C06 R06-11): put / put_batch hand every record to sled and report Ok only when sled did. R16-7 (shared, C11): the ten storage wrappers of the C API return true exactly on Ok and false on Err.",
+                   "no open failure is that value; load and new open through the same retrying routine. R16-5 a method that replaces the instance's tree builds the new one from the instance's storage configuration (not ZerokitMerkleTree::default). R16-6 (shared, C06 R06-11): put / put_batch hand every record to sled and report Ok only when sled did. R16-7 (shared, C11): the ten storage wrappers of the C API return true exactly on Ok and false on Err. R16-8: the caller's storage configuration reaches the tree in both constructors (RLN::new reads the documented key tree_config of its JSON, new_with_params the whole reader; Config::default() only for an empty text).",
     "not_decided": "what is on disk after a crash or an injected failure at write k, and equality of root/leaves/metadata after reopen "
                    "(behaviour of sled and pmtree over histories and fault positions: dynamic; the property's suggested fault hook is not used)",
     "assumptions": ["sled::Db::flush/insert/apply_batch return Err when the write fails", "pmtree propagates the Database errors it receives"],
